@@ -168,7 +168,7 @@ PROPS = {
         ],
     },
     "C15": {
-        "units": ["hid", "u2f", "psl"],
+        "units": ["hid", "u2f", "psl", "serdecap"],
         "kani_complete": [],
         "kani_bounded_quick": [],
         "kani_bounded_thorough": [],
